@@ -550,7 +550,27 @@ func (v *vc) loopModSet(fr *frame, li *loopInfo) *modSet {
 		}
 	}
 	if fr.fc != nil && len(fr.fc.ghostAt) > 0 {
-		m.ghostAll = true
+		// ghosts are havocked only by loops that contain one of their update sites
+		sites := v.eng.callSites(fr.fn)
+		for b := range li.body {
+			for _, in := range b.Instrs {
+				s, ok := sites[in]
+				if !ok {
+					continue
+				}
+				for _, g := range fr.fc.ghostAt {
+					w := g.where
+					if k := strings.Index(w, " in "); k >= 0 {
+						// update inside an inlined callee: attribute it to every call in the loop (conservative)
+						m.ghost[ghostBase(g.name)] = true
+						continue
+					}
+					if w == "before "+s || w == "after "+s {
+						m.ghost[ghostBase(g.name)] = true
+					}
+				}
+			}
+		}
 	}
 	return m
 }
@@ -618,7 +638,15 @@ func (v *vc) execInstr(fr *frame, st *state, instr ssa.Instruction) bool {
 	case *ssa.Lookup:
 		v.lookup(fr, st, in)
 	case *ssa.MapUpdate:
+		if site := v.callSite(in); fr.top && fr.fc != nil && site != "" {
+			v.curBlock = in.Block()
+			for _, cl := range fr.fc.callRequires[site] {
+				se := v.newSpecEnv(fr, st, in.Block())
+				v.oblige(st, "typestate", cl.label, site, se.evalGoal(cl.expr), cl.props)
+			}
+		}
 		v.mapUpdate(fr, st, in)
+		v.instrHookNamed(fr, st, in, []string{v.val(fr, st, in.Key)}, []types.Type{in.Key.Type()}, []string{"mapkey"})
 	case *ssa.Range:
 		fr.vals[in] = "0"
 		fr.ranges()[in] = in.X
@@ -639,6 +667,7 @@ func (v *vc) execInstr(fr *frame, st *state, instr ssa.Instruction) bool {
 		}
 		fr.results = append(fr.results, returnPoint{st: st.clone(), vals: vals})
 		if fr.top {
+			v.retBlock = in.Block()
 			v.atReturn(fr, st, vals, len(fr.results))
 		}
 		return false
@@ -653,9 +682,27 @@ func (v *vc) execInstr(fr *frame, st *state, instr ssa.Instruction) bool {
 	case *ssa.Store:
 		v.execStore(fr, st, in)
 	case *ssa.Send:
-		// no effect on modelled state
+		// no effect on modelled state; "at after send#k" ghost updates may refer to the value as sendval
+		v.instrHook(fr, st, in, []string{v.val(fr, st, in.X)}, []types.Type{in.X.Type()}, "sendval")
 	case *ssa.Select:
 		v.execSelect(fr, st, in)
+		tup := fr.selects()[in]
+		names := []string{}
+		var ts []types.Type
+		// selectidx, then one selectrecvK per state (zero for send states)
+		vals := []string{tup[0]}
+		ts = append(ts, types.Typ[types.Int])
+		names = append(names, "selectidx")
+		k := 2
+		for i, s := range in.States {
+			if s.Dir == types.RecvOnly {
+				vals = append(vals, tup[k])
+				ts = append(ts, s.Chan.Type().Underlying().(*types.Chan).Elem())
+				names = append(names, fmt.Sprintf("selectrecv%d", i))
+				k++
+			}
+		}
+		v.instrHookNamed(fr, st, in, vals, ts, names)
 	default:
 		v.note("unsupported instruction %T in %s", instr, fr.fn.Name())
 		if val, ok := instr.(ssa.Value); ok {
